@@ -265,9 +265,30 @@ fn case(t: &mut Tape, st: &mut Stats, max_depth: usize) -> Verdict {
         }
         g.files[0].lines.push(Line::Text("emit after-the-big-include".to_string()));
     }
+    // one tree in twelve: ONE physical file under two names on one include chain (a hard link, or a symbolic link named by
+    // an absolute path, which is used as written). Its relative directive resolves against the directory of the name it
+    // was reached by, so the two occurrences include different files and the tree is acyclic.
+    let mut twin: Option<(usize, usize, bool)> = None; // (first name, second name, second name is a symbolic link)
+    if g.t.chance(1, 12) {
+        let first = g.files.len();
+        let absolute = g.t.flip();
+        let symlink = absolute && g.t.flip();
+        let x_lines = |y: usize| vec![Line::Text("emit twin ${v}".to_string()), Line::Include(vec![("./y.ds".to_string(), y)]), Line::Text("emit twin-after".to_string())];
+        let second = if absolute { format!("{}/tq/x.ds", root_abs) } else { "../tq/x.ds".to_string() };
+        g.files.push(FileSpec { rel: "tp/x.ds".into(), lines: x_lines(first + 1) });
+        g.files.push(FileSpec { rel: "tp/y.ds".into(), lines: vec![Line::Text("emit py".into()), Line::Include(vec![(second, first + 2)]), Line::Text("emit py-after".into())] });
+        g.files.push(FileSpec { rel: "tq/x.ds".into(), lines: x_lines(first + 3) });
+        g.files.push(FileSpec { rel: "tq/y.ds".into(), lines: vec![Line::Text("emit qy ${w}".into())] });
+        g.files[0].lines.push(Line::Include(vec![("./tp/x.ds".to_string(), first)]));
+        g.files[0].lines.push(Line::Text("emit after-the-twins".to_string()));
+        twin = Some((first, first + 2, symlink));
+        st.class("one-file-under-two-names-on-one-include-chain");
+    }
     let files = g.files.clone();
-    // planted fault?
+    // planted fault? (not in the twin files: they are one file)
     let fault = g.t.weighted(&[6, 1, 1]);
+    let fault = if twin.is_some() && fault == 1 { 0 } else { fault };
+    let plantable = twin.map(|x| x.0).unwrap_or(files.len());
     let mut files = files;
     let mut expect_fault: Option<(&'static str, usize, usize)> = None; // (kind, file, line)
     let mut missing: Option<String> = None;
@@ -277,20 +298,30 @@ fn case(t: &mut Tape, st: &mut Stats, max_depth: usize) -> Verdict {
         missing = Some(files[victim].rel.clone());
         st.class("planted-missing-file");
     } else if fault == 2 {
-        let fi = g.t.below(files.len());
+        let fi = g.t.below(plantable);
         let (bad, kind, _) = malformed_line(g.t);
         let pos = g.t.below(files[fi].lines.len() + 1);
         files[fi].lines.insert(pos, Line::Text(bad));
         expect_fault = Some((kind, fi, pos + 1));
         st.class("planted-malformed-line");
     }
-    for f in &files {
+    for (fi, f) in files.iter().enumerate() {
         if Some(&f.rel) == missing.as_ref() {
             continue;
         }
         let p = PathBuf::from(&dir).join(&f.rel);
         std::fs::create_dir_all(p.parent().unwrap()).expect("mkdir");
-        std::fs::write(&p, file_text(f)).expect("write");
+        match twin {
+            Some((a, b, symlink)) if fi == b => {
+                assert_eq!(file_text(&files[a]), file_text(f));
+                if symlink {
+                    std::os::unix::fs::symlink("../tp/x.ds", &p).expect("symlink");
+                } else {
+                    std::fs::hard_link(PathBuf::from(&dir).join(&files[a].rel), &p).expect("hard link");
+                }
+            }
+            _ => std::fs::write(&p, file_text(f)).expect("write"),
+        }
     }
     let root_path = format!("{}/root.ds", dir);
     // one tree in ten: the root file is a symbolic link to a file in another directory (relative paths resolve
@@ -508,7 +539,7 @@ fn case_t(t: &mut Tape, st: &mut Stats) -> Verdict {
 pub fn property() -> Property {
     Property {
         id: "C14",
-        rule: "acyclic include trees (depth <= 3 quick / 5 thorough, <= 9 files) written to a tmpfs scratch directory: files in nested directories (names with spaces and non-ASCII), referenced by ./relative, bare relative, ../ and absolute paths (one tree in ten has its root file reached through a symbolic link to another directory that holds decoys), directives listing several files or the same leaf file twice, at first / middle / last line (one tree in forty ends with a chain of 65..160 files each including the next, or with one directive naming 40..120 files); bodies made of emit / set / if-blocks / function definitions (called from later files) / run-time errors with get_last_error_line/source probes. Oracle: (1) parse_file(root) equals parse_text(paste(root)) instruction for instruction (own recursive inliner; directive line = no-op placeholder), (2) every instruction's meta_info is (canonical path of the file it was written to, its line there), (3) run_script_file(root) and run_script(pasted) give the same emit trace, final variables and outcome, (4) planted faults: a missing file gives ErrorReadingFile naming it, a malformed line (C08 kinds) gives the matching kind with that file and line, run-time errors in included code report the included file and its own line. Non-trivial: tree depth >= 2, a file included twice, or an include not at line 1; distinct by tree",
+        rule: "acyclic include trees (depth <= 3 quick / 5 thorough, <= 9 files) written to a tmpfs scratch directory: files in nested directories (names with spaces and non-ASCII), referenced by ./relative, bare relative, ../ and absolute paths (one tree in ten has its root file reached through a symbolic link to another directory that holds decoys), directives listing several files or the same leaf file twice, at first / middle / last line (one tree in forty ends with a chain of 65..160 files each including the next, or with one directive naming 40..120 files); bodies made of emit / set / if-blocks / function definitions (called from later files) / run-time errors with get_last_error_line/source probes. Oracle: (1) parse_file(root) equals parse_text(paste(root)) instruction for instruction (own recursive inliner; directive line = no-op placeholder), (2) every instruction's meta_info is (canonical path of the file it was written to, its line there), (3) run_script_file(root) and run_script(pasted) give the same emit trace, final variables and outcome, (4) planted faults: a missing file gives ErrorReadingFile naming it, a malformed line (C08 kinds) gives the matching kind with that file and line, run-time errors in included code report the included file and its own line. Non-trivial: tree depth >= 2, a file included twice, or an include not at line 1; distinct by tree; one tree in twelve holds ONE physical file under two names on one include chain (a hard link, or a symbolic link named by an absolute path) whose relative directive resolves against the directory of the name it was reached by - an acyclic tree",
         assumptions: &[
             "cyclic trees are not generated (C07 covers the cycle probe); no line-valued jumps in bodies",
             "paths are compared after canonicalisation",
@@ -521,7 +552,7 @@ pub fn property() -> Property {
                     Tier::Thorough => Plan::Skip,
                 },
                 case: case_q,
-                min_classes: &[("tree-depth-2", 500), ("file-included-twice", 100), ("include-not-at-first-line", 1000), ("planted-missing-file", 200), ("planted-malformed-line", 500), ("runtime-error-inside-included-file", 100), ("include-chain-deeper-than-64", 150), ("root-file-reached-through-a-symlink", 2000), ("included-file-named-like-its-includer-in-other-letter-case", 1000), ("directive-naming-40-or-more-files", 150)],
+                min_classes: &[("tree-depth-2", 500), ("file-included-twice", 100), ("include-not-at-first-line", 1000), ("planted-missing-file", 200), ("planted-malformed-line", 500), ("runtime-error-inside-included-file", 100), ("include-chain-deeper-than-64", 150), ("root-file-reached-through-a-symlink", 2000), ("included-file-named-like-its-includer-in-other-letter-case", 1000), ("directive-naming-40-or-more-files", 150), ("one-file-under-two-names-on-one-include-chain", 2000)],
             },
             Section {
                 name: "deep-trees",
